@@ -249,11 +249,21 @@ def one(ctx, fam, i):
         if missing:
             m = rng.choice(missing)
             runner = "sync" if not any(ns["k"] == "int" for ns in spec["nodes"]) else "async"
-            for pol in ("ignore", "warn", "error"):
-                o = core.execute(built, provided, runner, select=[m], on_missing=pol, max_iterations=100)
+            # the unproduced name alone, next to produced ones, and inside a selection that lists EVERY output of the
+            # graph (in declaration order and reversed): the policy is owed whatever else is selected
+            g_outs = [x for x in getattr(built.graph, "outputs", ()) if isinstance(x, str)]
+            sels = [[m]]
+            if len(data) > 1:
+                sels.append(sorted(data))
+            if m in g_outs and len(g_outs) > 1:
+                sels.append(list(g_outs))
+                sels.append(list(reversed(g_outs)))
+            for pol, sel_ in [(p_, s_) for p_ in ("ignore", "warn", "error") for s_ in sels]:
+                o = core.execute(built, provided, runner, select=list(sel_), on_missing=pol, max_iterations=100)
                 ctx.obs["on_missing_checked"] += 1
+                ctx.obs["on_missing_full_selection"] += int(len(sel_) > 1 and set(sel_) == set(g_outs))
                 uw = [w for w in o.warnings if issubclass(w.category, UserWarning) and "not found" in str(w.message)]
-                c2 = {**case, "provided": core.jsonable(provided), "select": [m], "on_missing": pol}
+                c2 = {**case, "provided": core.jsonable(provided), "select": list(sel_), "on_missing": pol}
                 if pol == "ignore" and (o.exc is not None or uw):
                     ctx.violation("C16:on_missing-ignore", f"on_missing=ignore for unproduced {m}: exc={o.exc!r} warnings={[str(w.message)[:60] for w in uw]}", c2)
                 if pol == "warn" and (o.exc is not None or not uw):
@@ -261,7 +271,7 @@ def one(ctx, fam, i):
                 if pol == "error" and not isinstance(o.exc, ValueError):
                     ctx.violation("C16:on_missing-error", f"on_missing=error for unproduced {m}: expected ValueError, got status {o.status} {o.exc!r}", c2)
                 if o.exc is None and o.values:
-                    check_values(ctx, spec, o.values, [m], f"on_missing={pol}", c2)
+                    check_values(ctx, spec, o.values, list(sel_), f"on_missing={pol}", c2)
     ctx.case({"f": fam["family"], "s": gen.shape_of(spec), "e": spec.get("entry"), "sel": spec.get("select"), "rs": rsel}, bool(spec.get("entry") or effective), sample=case if i < 2 else None)
 
 
